@@ -165,6 +165,13 @@ def get_numbered_lines(content: str):
         text = raw_line
         while i < len(raw_lines) - 1 and text[-1] == "\\" or text.endswith(" or"):
             i += 1
+            # Blank lines after an active "operator" do not end the continuation
+            while (
+                text.endswith(" or")
+                and i < len(raw_lines) - 1
+                and raw_lines[i].strip() == ""
+            ):
+                i += 1
             if text[-1] == "\\":
                 text = text[0:-1]
             if text[-1] != " ":
